@@ -98,7 +98,7 @@ claim('C11',
       '(immediately and after settling).',
       WORLD_NOTE + 'One listed known finding (`set` applies options one by one). The solver acts as an enumerator here: all inputs are selectors.')
 claim('C12',
-      'Bounded symbolic execution of reloadconfig sequences (K<=3 edits from a 19-edit menu incl. reverts, multi-watcher edits, a watcher scaled to 0 and back, an invalid definition after which '
+      'Bounded symbolic execution of reloadconfig sequences (K<=3 edits from a 21-edit menu incl. reverts, multi-watcher edits, a watcher scaled to 0 and back, a watcher with an upper-case name added and removed at run time, an invalid definition after which '
       'the history continues with convergence alone claimed, and env values that '
       'parse_env_dict rewrites) on a real ini file: after every reload the daemon equals what get_config + Watcher.load_from_config yield for the file, '
       'unchanged watchers keep their pids, numprocesses-only edits keep the surviving workers, an unchanged file causes no kernel activity, removed watchers leave nothing. '
